@@ -401,8 +401,9 @@ def run(ctx, model_ok=True):
         grid = [((a, a), (b, b), r) for a in range(1, 5) for b in range(1, 5) for r in range(1, 6)]
         rng.shuffle(grid)
         for k, (din, dout, r) in enumerate(grid):
-            check_dual(ctx, din, dout, r, bool(k % 2), k % 4 != 3)
-        for it in range(120):
+            check_dual(ctx, din, dout, r, True, k % 4 != 3)
+            check_dual(ctx, din, dout, r, False, k % 4 != 1)
+        for it in range(300):
             din, dout = rand_dims2(rng, 4, 0.15)
             check_dual(ctx, din, dout, int(rng.integers(1, 6)), False, bool(rng.integers(4)))
     else:
@@ -415,15 +416,15 @@ def run(ctx, model_ok=True):
         for di0, di1, do0, do1 in itertools.product(range(1, 5), repeat=4):
             if di0 == di1 and do0 == do1:
                 continue
-            for r in (1, 2, 4):
+            for r in (1, 2, 3, 4, 5):
                 check_dual(ctx, (di0, di1), (do0, do1), r, False, bool(rng.integers(4)))
-        ctx.extra["exhaustive_small_space"] = "dual: full grid of square (d_in, d_out) in 1..4, rank 1..5, CP/non-CP, real/complex; all rectangular dimension quadruples in 1..4 with ranks 1,2,4"
+        ctx.extra["exhaustive_small_space"] = "dual: full grid of square (d_in, d_out) in 1..4, rank 1..5, CP/non-CP, real/complex; all rectangular dimension quadruples in 1..4 with ranks 1..5"
     # complementary channel
     for d in range(1, 5):
         for r in range(1, 5):
-            for _ in range(3 if quick else 25):
+            for _ in range(8 if quick else 120):
                 check_compl(ctx, d, r)
-    for it in range(24 if quick else 200):
+    for it in range(40 if quick else 600):
         check_compl_reject(ctx, int(rng.integers(1, 4)), int(rng.integers(1, 4)), ["scaled", "dropped", "nonsquare", "empty"][it % 4])
     ctx.extra["tolerances"] = {"dual": 0, "complementary structure": 0, "complementary entries / trace": "1e-9*scale", "complementary spectrum": "1e-8*scale"}
 
